@@ -27,6 +27,7 @@ BASELINE = [
 ]
 # forms of behaviour-preserving rewrites that a rule analyses element by element (the rule is named):
 UNDERSTOOD = [
+    (r"FindMatchesImpl::<..>::set_offset$", "last", "C09.a: `prefix.chars().last()` is the char in front of the new position, like next_back() (the rule checks prefix and direction)"),
     (r"FindMatchesImpl::<..>::advance_char_indices_beyond_match$", "take_while", "C11.d analyses the stop test of the walk (take_while consumes the first rejected element like the loop's break)"),
     (r"CompiledDfa::priority_of$", "take_while", "C01.c: take_while(!= t).count() is the position search"),
     (r"CompiledDfa::priority_of$", "zip", "C01.c: numbering"),
@@ -72,9 +73,16 @@ AREAS = {   # rule id -> functions it covers
 def _owners_or_self(F, fn):
     """the known functions on whose behalf `fn` runs; a function the rules do not know that nobody in the crate calls
     and that is not a trait method runs on nobody's behalf: dead code, or a new entry point no property speaks about"""
-    from .common import owners
+    from .common import owners, call_sites_of
     from . import symex as S_
     os_ = owners(F, fn)
+    if os_ and fn.kind != "Closure" and S_.is_unknown_helper(fn):
+        # a helper that is called from debug-only code alone (the predicate of a `debug_assert!` moved into a function) is
+        # debug-only code itself: effect-free by <Cxx>.z, not part of what a release build computes
+        from . import profile as _pf
+        sites = call_sites_of(F, fn)
+        if sites and all(any(bb in region for _sw, region in _pf.debug_only_regions(g)) for g, bb, _t in sites):
+            return []
     if os_:
         return os_
     base = fn
